@@ -201,7 +201,9 @@ func report(eng *Engine, units []*Unit, start time.Time, workdir string, timeout
 			"violations":  violations,
 			"assumptions": ass,
 			"coverage": map[string]interface{}{
-				"obligations":  total,
+				// obligations listed as known findings are reported separately (known_findings) and are neither counted as
+				// obligations of the proof claim nor as discharged
+				"obligations":  total - len(knownLines),
 				"discharged":   discharged,
 				"checker_cmd":  fmt.Sprintf("z3 -T:%d <file> | z3-new -T:%d <file> | cvc5 --tlimit=%d <file> (raced per obligation)", timeout, timeout, timeout*1000),
 				"trusted_base": trusted,
